@@ -156,6 +156,44 @@ def run(ctx):
         lang = rng.choice(["C", "CPP"])
         lines, txt = gen.program(rng, lang, stats=ctx.hist)
         gjobs.append((txt, lang, rng.choice(profs)))
+    # fixed universe "comment columns": a trailing comment continued by a comment-only line, next to a second trailing comment, with the
+    # comments starting in EVERY column 16..56 (spaces or tabs in front) -- the passes that place comments (indent_comment, the
+    # right-comment aligner, cmt_ options) compare columns with thresholds, and a fixed point must hold on both sides of each threshold
+    cjobs = []
+    for col in range(16, 57):
+        for style in range(4):
+            def pad(used, col=col, style=style):
+                if style % 2 == 0:
+                    return " " * (col - 1 - used)
+                # tabs up to the last tab stop at or before the column, then blanks
+                nt = (col - 1) // 8 - used // 8
+                return ("\t" * nt + " " * ((col - 1) % 8)) if nt > 0 else " " * (col - 1 - used)
+            c1, c2, c3 = ("/* first */", "/* second line */", "/* other */") if style < 2 else ("// first", "// second line", "// other")
+            txt = ("void f(void)\n{\n\tint a;" + pad(8 + 6) + c1 + "\n" + pad(0) + c2 + "\n\tint other_long_name = 12345;  " + c3 + "\n}\n")
+            for cfg in profs:
+                cjobs.append((txt, "C", cfg, col, style))
+    unstable = {}
+    example = {}
+    for (txt, lg, cfg, col, style), t in common.pmap(lambda j: (j, triple(exe, j[2], j[1], j[0].encode())), cjobs):
+        rc1, o1, rc2, o2, rc3, o3, rcc = t
+        ctx.case("cmtcol|%d|%d|%s" % (col, style, cfg), nontrivial=(rc1 == 0))
+        if rc1 == 0 and (rc2 != 0 or o2 != o1 or rc3 != 0 or o3 != o2 or rcc != 0):
+            k = (os.path.basename(cfg), ["block-spaces", "block-tabs", "line-spaces", "line-tabs"][style])
+            unstable.setdefault(k, []).append(col)
+            example.setdefault(k, (txt, o1, o2))
+    cbad = 0
+    for (prof, sty), cols in sorted(unstable.items()):
+        txt, o1, o2 = example[(prof, sty)]
+        # the finding is the exact set of comment columns at which the fixed point fails: a change that moves one of the thresholds by a
+        # single column gives another set
+        if ctx.violation("comment-column universe, profile %s, %s: not a fixed point when the trailing comment and its continuation line start in "
+                         "column %s (of 16..56)" % (prof, sty, ",".join(map(str, sorted(cols)))),
+                         {"input_text": txt, "profile": prof, "first_pass": o1.decode("latin1"), "second_pass": o2.decode("latin1"),
+                          "how": "props/c05.py builds the text for every column; uncrustify -c profile twice"},
+                         key={"universe": "comment-columns", "profile": prof, "style": sty, "columns": sorted(cols)}, found_input=True):
+            cbad += 1
+    ctx.oblige("comment-column universe (trailing comment + continuation line in every column 16..56, 4 styles) x profiles: fixed points (%d programs)"
+               % len(cjobs), cbad == 0, "oracle", "%d (profile, style) pairs with an unlisted set of unstable columns" % cbad)
     for (txt, lg, cfg), t in common.pmap(lambda j: (j, triple(exe, j[2], j[1], j[0].encode())), gjobs):
         rc1, o1, rc2, o2, rc3, o3, rcc = t
         ctx.case("gen|" + txt + cfg, nontrivial=(rc1 == 0))
